@@ -249,6 +249,14 @@ class Printer:
             return '(' + self.expr(inner[0]) + ')'
         if k == 'SubstNonTypeTemplateParmExpr':
             return self.expr(inner[-1])
+        if k == 'ConstantExpr' and isinstance(n.get('value'), str):
+            # a constant expression that clang already evaluated (if constexpr conditions, template constants such as
+            # std::is_floating_point_v<T>): print the value instead of the (possibly unprintable) expression
+            q = strip_cv(qual(n['type']))
+            if q == 'bool' and n['value'] in ('true', 'false'):
+                return '1' if n['value'] == 'true' else '0'
+            if q in SCALARS and q not in ('double', 'float', 'long double', 'bool') and re.fullmatch(r'-?\d+', n['value']):
+                return f'(({SCALARS[q]})({n["value"]}))'
         if k in TRANSPARENT:
             return self.expr(inner[0])
         if k == 'IntegerLiteral':
